@@ -37,11 +37,17 @@ def run(prop, tier, replay=None):
                     cases.append(dict(fam="timeout", shape=s, proto=rnd.choice(["grpc", "grpcweb", "grpcwebtext"]), value=""))
             # boundary values: overflowing hours, leading zeros, extremes of 8 digits
             for unit in "HMSmun":
-                for v in ["0", "1", "00000001", "99999999", "2562047", "2562048", "5124096", "7686143", "10248192", "12345678", "153722867", "01", "0001"]:
+                for v in ["0", "1", "00000001", "99999999", "2562047", "2562048", "5124096", "7686143", "10248192", "12345678", "153722867", "01", "0001",
+                          # zero-padded values that an octal reading would change or refuse
+                          "010", "08", "09", "0100", "019", "00000019", "077", "01000000"]:
                     if len(v) <= 8:
                         cases.append(dict(fam="timeout", shape=dict(n=len(v), digits=True, unit=unit, signed=False), proto="grpc", value=v))
                     else:
                         cases.append(dict(fam="timeout", shape=dict(n=len(v), digits=True, unit=unit, signed=False), proto="grpcweb", value=v))
+            # digits mixed with what other number syntaxes allow: all malformed
+            for unit in "SmH":
+                for v in ["0x10", "0b101", "0o17", "1_0", "1e3", "0X1F", "1.5", " 5", "5 "]:
+                    cases.append(dict(fam="timeout", shape=dict(n=len(v), digits=False, unit=unit, signed=False), proto=rnd.choice(["grpc", "grpcweb"]), value=v))
             extra_h = 60 if tier == "quick" else 3000
             for k in range(extra_h):     # 7-8 digit hour values: the overflow / clamp band
                 v = str(rnd.randint(1000000, 99999999))
